@@ -50,6 +50,9 @@ fn main() {
         let a: serde_json::Value = serde_json::from_str(&args[2]).unwrap_or_else(|e| ev::machinery(&format!("worker args: {e}")));
         std::process::exit(c05::worker_main(&a));
     }
+    if id == "C06-LONG" {
+        std::process::exit(c06::long_child(&args[2]));
+    }
     let (tier, replay): (Tier, Option<serde_json::Value>) = match args[2].as_str() {
         "quick" => (Tier::Quick, None),
         "thorough" => (Tier::Thorough, None),
